@@ -169,6 +169,16 @@ class C17(F.Spec):
                           "uf": uf.hex(), "pf": pf.hex()})
         for i in range(n):
             yield self.gen_connect(rng, i)
+        # the fixed-header encoder on every length boundary of the 1..4-byte encoding
+        bounds = [0, 1, 126, 127, 128, 129, 255, 256, 16382, 16383, 16384, 16385, 2097150, 2097151, 2097152, 2097153,
+                  268435454, 268435455, 268435456, 268435457, 4294967295]
+        ops = []
+        for r in bounds + [rng.randint(0, 300000000) for _ in range(20 if tier == "quick" else 400)]:
+            ty = rng.choice([1, 2, 3, 3, 4, 5, 6, 7, 8, 9, 10, 11, 12, 13, 14])
+            fl = rng.randint(0, 15) if ty == 3 else (2 if ty in (6, 8, 10) else 0)
+            ops.append("packhdr %d %d %d" % (ty, fl, r))
+        for j in range(0, len(ops), 16):
+            yield F.Case("packhdr%d" % (j // 16), ["start"] + ops[j:j + 16], {"tags": ["packhdr"], "kind": "packhdr"})
         for i in range(n):
             yield self.gen_topics(rng, i)
         for i in range(n):
@@ -267,6 +277,9 @@ class C17(F.Spec):
             if op.startswith("val "):
                 ops.append(op)
                 exp.append([x for x in g if x.startswith("VAL ")])
+            elif op.startswith("packhdr "):
+                ops.append(op)
+                exp.append([x for x in g if x.startswith("PACKHDR ")])
             elif op == "connected" and case.meta.get("kind") == "connect" and not case.meta.get("noauth"):
                 uf, pf = bytes.fromhex(case.meta["uf"]), bytes.fromhex(case.meta["pf"])
                 ulen = uf.index(0) if 0 in uf else E
